@@ -54,9 +54,10 @@ type ReplayFile struct {
 
 type foundViolation struct {
 	Violation
-	Replay string `json:"replay"`
-	Run    uint64 `json:"run"`
-	Count  int    `json:"count"`
+	Replay     string   `json:"replay"`
+	AltReplays []string `json:"alt_replays"`
+	Run        uint64   `json:"run"`
+	Count      int      `json:"count"`
 }
 
 type workerSummary struct {
@@ -190,6 +191,15 @@ func workerBatch(t *testing.T, a workerArgs) int {
 	if a.MaxMin == 0 {
 		a.MaxMin = 4
 	}
+	if a.Budget > 0 {
+		minimiseWall = time.Duration(a.Budget) * time.Second / 6
+		if minimiseWall < 3*time.Second {
+			minimiseWall = 3 * time.Second
+		}
+		if minimiseWall > 40*time.Second {
+			minimiseWall = 40 * time.Second
+		}
+	}
 	idx := a.From
 	for ; idx < a.To; idx++ {
 		if a.Budget > 0 && time.Since(t0) > time.Duration(a.Budget)*time.Second {
@@ -229,6 +239,16 @@ func workerBatch(t *testing.T, a workerArgs) int {
 			key := v.Clause + "|" + v.Sig
 			if fv, ok := seenV[key]; ok {
 				fv.Count++
+				if len(fv.AltReplays) < 3 && fv.Run != idx {
+					// a few more instances of the same shape, as recorded (not minimised): should the first one
+					// turn out not to reproduce in a fresh process, the driver tries these
+					rec := tp.Recorded()
+					alt := ReplayFile{Property: a.Prop, Clause: v.Clause, Sig: v.Sig, Detail: v.Detail, Seed: a.Seed, Run: idx, Tier: a.Tier, Race: raceBuild,
+						OrigLen: len(rec[0]) + len(rec[1]) + len(rec[2]), Tape: tapeToMap(rec)}
+					name := fmt.Sprintf("%s/%s-%s-%d-%d%s.json", a.ReplayDir, a.Prop, sanitize(v.Clause), a.Seed, idx, map[bool]string{true: "-race", false: ""}[raceBuild])
+					writeJSON(name, alt)
+					fv.AltReplays = append(fv.AltReplays, name)
+				}
 				continue
 			}
 			fv := &foundViolation{Violation: v, Run: idx, Count: 1}
